@@ -166,3 +166,87 @@ func H_C03_SignatureBytes() {
 		zzverif.Reach("short")
 	}
 }
+
+// C03: the last step of ECDSA verification compares r with the abscissa of the recomputed point *modulo n*. The scalar,
+// group and field computations are stubs (arbitrary results: C08's subject); the recomputed point is the point at
+// infinity or has an arbitrary affine abscissa x < p. For r in [1, n-1] (s = 5): accepted exactly when the point is
+// finite and r = x mod n - in particular for the abscissas in [n, p), which r = x - n must match.
+func H_C03_EcdsaXModN() {
+	zzverif.IntMode()
+	rb, msg := zzverif.Bytes("r", 32), zzverif.Bytes("msg", 32)
+	N := &TheCurve.Order.Int
+	var key XY
+	want := false
+	if zzverif.Symbolic() {
+		x := zzverif.Bytes("recomputed.x", 32)
+		zzverif.Assume(h_below_p(x))
+		inf := zzverif.Bool("recomputed.infinity")
+		zzverif.Stub("Number.mod_inv / mod_mul, XYZ.ECmult / get_x, Field.Normalize / GetB32 inside Signature.recompute: the recomputed point is the point at infinity or has an arbitrary abscissa below p")
+		zzverif.Replace("(*secp256k1.Number).mod_inv", func(r, a, b *Number) {})
+		zzverif.Replace("(*secp256k1.Number).mod_mul", func(r, a, b, m *Number) {})
+		zzverif.Replace("(*secp256k1.XYZ).SetXY", func(r *XYZ, a *XY) {})
+		zzverif.Replace("(*secp256k1.XYZ).ECmult", func(a, r *XYZ, na, ng *Number) { r.Infinity = inf })
+		zzverif.Replace("(*secp256k1.XYZ).get_x", func(a *XYZ, r *Field) {})
+		zzverif.Replace("(*secp256k1.Field).Normalize", func(f *Field) {})
+		zzverif.Replace("(*secp256k1.Field).GetB32", func(f *Field, out []byte) { copy(out, x) })
+		R := new(big.Int).SetBytes(rb)
+		xn := new(big.Int).SetBytes(x)
+		above := xn.Cmp(N) >= 0
+		xn.Mod(xn, N)
+		want = R.Sign() > 0 && R.Cmp(N) < 0 && !inf && R.Cmp(xn) == 0
+		if !inf && above {
+			zzverif.Reach("abscissa-above-n")
+		}
+	} else {
+		// native realisation: a valid triple whose nonce point has its abscissa in [n, p), built algebraically: R = the first
+		// curve point with x = n + t (t = 1, 2, ...), r = t, s = 5, Q = (1/u2)*R - (u1/u2)*G with u1 = m/s, u2 = r/s
+		var R XY
+		t := new(big.Int)
+		for i := int64(1); i < 200; i++ {
+			var xb [32]byte
+			new(big.Int).Add(N, big.NewInt(i)).FillBytes(xb[:])
+			var f Field
+			f.SetB32(xb[:])
+			R.SetXO(&f, false)
+			if R.IsValid() {
+				t.SetInt64(i)
+				break
+			}
+		}
+		if t.Sign() == 0 {
+			return
+		}
+		m := new(big.Int).SetBytes(msg)
+		sn := new(big.Int).ModInverse(big.NewInt(5), N)
+		u1 := new(big.Int).Mul(m, sn)
+		u1.Mod(u1, N)
+		u2 := new(big.Int).Mul(t, sn)
+		u2.Mod(u2, N)
+		u2i := new(big.Int).ModInverse(u2, N)
+		var na, ng Number
+		na.Set(u2i)
+		g := new(big.Int).Mul(u1, u2i)
+		g.Neg(g)
+		g.Mod(g, N)
+		ng.Set(g)
+		var rj, qj XYZ
+		rj.SetXY(&R)
+		rj.ECmult(&qj, &na, &ng)
+		if qj.IsInfinity() {
+			return
+		}
+		key.SetXYZ(&qj)
+		rb = t.Bytes()
+		want = true
+	}
+	var sg Signature
+	var mnum Number
+	sg.R.SetBytes(rb)
+	sg.S.SetInt64(5)
+	mnum.SetBytes(msg)
+	got := sg.Verify(&key, &mnum)
+	zzverif.Assert("C03.ecdsa.x-mod-n", got == want)
+	if got {
+		zzverif.Reach("accepted")
+	}
+}
